@@ -307,6 +307,30 @@ try:
                     exps[q] += shift
             run_case("flags-" + rule, n, incs, exps, zsk, kw, now, desc={"flags_on": sorted(flags), "rule": rule})
 
+    # B2. the cycle length is the span from the first bundle's inception to the last bundle's (bundles in order of expiration), also when some bundle in between
+    #     - or the last one - starts out of step (only the cycle rule switched on)
+    for n in (2, 3, 5, 9):
+        for which in ("last-starts-before-its-predecessor", "first-starts-after-its-successor", "middle-starts-before-the-first"):
+            if which.startswith("middle") and n < 3:
+                continue
+            for d_ in (D(seconds=1), D(days=1), D(days=4)):
+                incs, exps = baseline(n, validity=D(days=21))
+                if which.startswith("last"):
+                    incs[-1] = incs[-2] - d_
+                elif which.startswith("first"):
+                    incs[0] = incs[1] + d_
+                else:
+                    incs[n // 2] = incs[0] - d_
+                span = incs[-1] - incs[0]
+                widest = max(incs) - min(incs)
+                for lo, hi in ((span, span), (widest, widest), (span - D(seconds=1), span + D(seconds=1)), (min(span, widest) + D(seconds=1), max(span, widest)),
+                               (min(span, widest), max(span, widest) - D(seconds=1))):
+                    if lo > hi or lo < D(0):
+                        continue
+                    kw = pol_for(n, {"check_cycle_length"}, min_cycle_inception_length=lo, max_cycle_inception_length=hi)
+                    run_case("cycle-span-out-of-step-inceptions", n, incs, exps, zsk_for(False), kw, NOW, shuffle=R.random() < 0.3,
+                             desc={"which": which, "span_first_to_last_s": span.total_seconds(), "widest_s": widest.total_seconds(), "bounds_s": [lo.total_seconds(), hi.total_seconds()]})
+
     # C. random timelines (varied validity per bundle, equal expirations, shuffled document order)
     for i in range(400 * SCALE):
         n = R.randrange(1, 10)
